@@ -83,6 +83,7 @@ def frame(rows, cols="AB", index=None, extra=False, reverse_columns=False):
     if extra is True:
         data["Epitope"] = ["GILGFVFTL"] * len(rows)
         data["clone_count"] = list(range(len(rows)))
+        data[" note "] = ["n"] * len(rows)              # a caller's own column whose label carries blanks: labels are part of the table
     if extra == "stale":
         # the table already carries CDR1/CDR2 columns (stale annotation): the loops of the row's V allele count, not these
         for c, junk in (("CDR1A", "XXXXXX"), ("CDR2A", "YY"), ("CDR1B", "ZZZZZZZZ"), ("CDR2B", "")):
